@@ -29,7 +29,7 @@ impl Case {
 /// What must at least be recovered from `prefix` (taken at a flush) in the given mode.
 /// For layers both in authenticated mode the completed chunks of the prefix are decrypted with
 /// the independent AES-GCM implementation and decoded with the reference decoders.
-fn lower_bound(c: &Case, appended: &BTreeMap<String, usize>, prefix: &[u8], unauth: bool) -> Option<BTreeMap<String, usize>> {
+pub fn lower_bound(c: &Case, appended: &BTreeMap<String, usize>, prefix: &[u8], unauth: bool) -> Option<BTreeMap<String, usize>> {
     let prefix_len = prefix.len();
     let l = c.cfg.layers;
     if !l.encrypted() || unauth {
